@@ -40,8 +40,8 @@ func runC02(c *Ctx) {
 	})
 	if storeI := c.P.NamedType(pkgStore, "Store"); storeI != nil {
 		c.shared(func() { c04Iteration(c, c.P.Implementations(storeI), "C04-D3") }, func(o *Obligation) bool {
-		return !strings.Contains(o.Key, "Collapsing") && !strings.Contains(o.Func, "Collapsing")
-	})
+			return !strings.Contains(o.Key, "Collapsing") && !strings.Contains(o.Func, "Collapsing")
+		})
 	}
 	// a part merged from another store kind arrives bin by bin through the receiver's AddWithCount, a part fed directly
 	// through Add: both count in the bin of the index (the add side of the non-collapsing stores)
